@@ -62,6 +62,13 @@ def generate(rng, tier, focus):
             box = np.diag([float(max(1, round(x))) for x in np.diag(box)])     # integer edges, handed over as an int array
         else:
             forms["box"] = "lists"
+    if kind in ("ortho", "cubic") and forms["box"] != "int_array" and rng.random() < 0.2:
+        # a rectangular box whose off-diagonal zeros are NEGATIVE zeros ("-0.00000" in a box line, -np.diag(-edges)): the
+        # same box, number for number
+        for i_ in range(3):
+            for j_ in range(3):
+                if i_ != j_ and rng.random() < 0.6:
+                    box[i_, j_] = -0.0
     return {"box": box.tolist(), "kind": kind, "res1": res1, "res2": res2, "ops": ops,
             "point_arg": rng.random() < 0.3, "forms": forms}
 
